@@ -379,13 +379,12 @@ func (r *reconstructor) reconstructBinaryValue(
 				return err
 			}
 
-			num := p.Num + 1
-
-			if num >= len(r.buffers) {
+			// The first buffer is the JSON payload. Attachments start at index 1.
+			if p.Num < 0 || p.Num >= len(r.buffers)-1 {
 				return errInvalidPlaceholderNumValue
 			}
 
-			buf := r.buffers[num]
+			buf := r.buffers[p.Num+1]
 
 			if customSetter != nil {
 				err = customSetter(buf)
@@ -472,13 +471,13 @@ func (r *reconstructor) reconstructMap(rv reflect.Value) error {
 
 					if pholder.Kind() == reflect.Bool && pholder.Bool() && num.Kind() == reflect.Float64 {
 						n := int(num.Float())
-						n++
 
-						if n >= len(r.buffers) {
+						// The first buffer is the JSON payload. Attachments start at index 1.
+						if n < 0 || n >= len(r.buffers)-1 {
 							return errInvalidPlaceholderNumValue
 						}
 
-						buf := r.buffers[n]
+						buf := r.buffers[n+1]
 						rv.SetMapIndex(mk, reflect.ValueOf(buf))
 						continue
 					}
@@ -496,13 +495,13 @@ func (r *reconstructor) reconstructMap(rv reflect.Value) error {
 
 					if pholder.Kind() == reflect.Bool && pholder.Bool() && num.Kind() == reflect.Float64 {
 						n := int(num.Float())
-						n++
 
-						if n >= len(r.buffers) {
+						// The first buffer is the JSON payload. Attachments start at index 1.
+						if n < 0 || n >= len(r.buffers)-1 {
 							return errInvalidPlaceholderNumValue
 						}
 
-						buf := r.buffers[n]
+						buf := r.buffers[n+1]
 						rv.SetMapIndex(mk, reflect.ValueOf(buf))
 						continue
 					}
